@@ -1,7 +1,7 @@
 """C05 - Negation is the exact complement and stays in solver-safe form."""
 from hypothesis import strategies as st
 
-from vf import build, oracle
+from vf import build, oracle, strategies as S
 from vf.core import Part, Violation, call
 from vf.props import common
 
@@ -92,8 +92,16 @@ def strat(draw, tier, profile):
     return c
 
 
+@st.composite
+def focus(draw, tier):
+    spec = draw(S.negation_focus_spec(int_leaves=draw(st.booleans()), depth=2 if tier == "quick" else 3,
+                                      outer_connective=draw(st.integers(0, 3)) == 0))
+    return {"model": spec, "points": None, "via_not": draw(st.booleans())}
+
+
 def parts(tier):
     return [
+        Part("thresholds", strategy=lambda t: focus(t), check=check, quick=(2, 200), thorough=(4, 3000)),
         Part("small", strategy=lambda t: strat(t, "small"), check=check, quick=(6, 150), thorough=(12, 2500)),
         Part("large", strategy=lambda t: strat(t, "large"), check=check, quick=(2, 100), thorough=(4, 1500)),
     ]
